@@ -24,18 +24,23 @@ class C10(Prop):
     design_ref = "DESIGN.md §4 C10"
     level_text = (
         "Coq theorems over every well-formed abstract relationship field (RelGrammar.rfield with wf_rfield: Debian Policy 7.1 grammar, "
-        "arbitrary names/versions/architectures/profiles over [A-Za-z0-9.+~-]+, the five operators, optional canonical epoch, [!]arch lists, "
-        "<[!]profile ...> groups, empty entries, trailing comma, ${subst:vars} where enabled, an arbitrary SP/TAB/LF run in every whitespace "
-        "slot; no bound on any length or count): the lexer produces exactly rtoks f (C10_lex), the parser builds exactly rtree_of f with no "
-        "error (C10_parse_tokens), parse_relaxed/from_str succeed with that tree and print back the text (C10_lossless, C10_from_str), and the "
-        "accessors entries/relations/name/archqual/version/architectures/profiles/substvars report exactly the written content, negated "
-        "architectures included, for EVERY well-formed field (C10_content, C10_full_holds: racc_view (racc (rtree_of f)) = rcontent f). "
-        "The reader is the model of /repo 4b18f7c (version = the run of IDENT and COLON tokens); the code before the three fixes this property led to is kept as RelParsePre.v with "
-        "C10_prefix_epoch_refuted, C10_prefix_space_refuted, C10_prefix_arch_negation_refuted. PARTIAL: the lossy-reader clause is stated "
-        "(C10_lossy_full, over any model of lossy::Relations::from_str) and decided on every run by the rel-doc stream on the implementation; "
-        "it is instantiated with C14's model RelLossy.v (C10_lossy_RelLossy, checked on concrete fields by C10_lossy_ex) but not proved.")
+        "arbitrary names/versions/architectures/profiles over [A-Za-z0-9.+~-]+, the five operators, optional canonical epoch (then further "
+        "colons in the version), [!]arch lists, <[!]profile ...> groups, empty entries, trailing comma, ${subst:vars} where enabled, an "
+        "arbitrary SP/TAB/LF run in every whitespace slot; no bound on any length or count). LOSSLESS clause: the lexer produces exactly "
+        "rtoks f (C10_lex), the parser builds exactly rtree_of f with no error (C10_parse_tokens), parse_relaxed/from_str succeed with that "
+        "tree and print back the text (C10_lossless, C10_from_str), and the accessors entries/relations/name/archqual/version/architectures/"
+        "profiles/substvars report exactly the written content, negated architectures included, for EVERY well-formed field (C10_content, "
+        "C10_full_holds). LOSSY clause, also proved: for every well-formed field without substitution variables in lossy_dom (no LF in the "
+        "whitespace inside a relation, nothing between ':' and a qualifier; LF free around ',' and '|'), the lossy reader (C14's model "
+        "RelLossy.v: split(','), trim, split('|'), trim, a lexer run per relation, the token reader, C14's debversion model) returns exactly "
+        "the content (C10_lossy, C10_lossy_full_holds, C10_lossy_value) = what the lossless accessors report (C10_lossy_agrees_with_lossless); "
+        "each restriction of lossy_dom is shown necessary by a witness (C10_lossy_dom_needed, 12 fields). History lemmas about the code "
+        "before the fixes this property led to: C10_prefix_epoch_refuted, C10_prefix_space_refuted, C10_prefix_arch_negation_refuted. "
+        "Nothing is partial.")
     level_note = ("Model: Lexer (debian-control/src/relations.rs), fn parse and the read accessors of debian-control/src/lossless/relations.rs "
-                  "(coq/model/RelLex.v, RelParse.v, RelAcc.v); specification: coq/model/RelGrammar.v (rrender, wf_rfield, rtoks, rtree_of, rcontent).")
+                  "(coq/model/RelLex.v, RelParse.v, RelAcc.v); lossy reader: debian-control/src/lossy/relations.rs as modelled by the cone of C14 "
+                  "(coq/model/RelLossy.v, tied to the code by C14's streams and by this cone's rel-doc stream); "
+                  "specification: coq/model/RelGrammar.v (rrender, wf_rfield, rtoks, rtree_of, rcontent, lossy_dom).")
     rule = ("rel-doc: systematic small fields (every combination of optional parts x trailing whitespace x position) + random inhabitants of "
             "RelGrammar.rfield in four whitespace styles (text rendered by the generator and re-rendered by the extracted rrender, wf_rfield and "
             "lossy_dom checked by the extracted definitions), implementation compared with rcontent; the lossy reader's value is compared with "
@@ -50,6 +55,8 @@ class C10(Prop):
                "debversion 0.4.4 Version::from_str + Display modelled as RelAcc.debversion_roundtrip (text unchanged except a canonically "
                "re-printed epoch; errors when the epoch does not fit u32); VersionConstraint/BuildProfile::from_str transcribed",
                "rowan children()/children_with_tokens()/text() modelled on the inductive tree",
+               "the lossy reader and debversion as modelled by the cone of C14 (coq/model/RelLossy.v: str::split / trim, Relation::from_str, dv_parse / dv_print), "
+               "validated by C14's correspondence streams and, for this property, by the lossy= part of rel-doc on every case",
                "extraction (ExtrOcamlBasic only), OCaml runner (incl. the field decoder in runner/s_relgrammar.ml), Rust harness, Python driver and generator"]
     assumptions = ["inputs are valid UTF-8 (Rust &str)",
                    "names, versions, architecture and profile names are non-empty strings over [A-Za-z0-9.+~-]; an epoch is a canonical decimal <= 4294967295",
